@@ -1742,7 +1742,13 @@ int QSexact_solver (mpq_QSdata * p_mpq,
 			break;
 		case QS_LP_INFEASIBLE:
 			y_mpf = mpf_EGlpNumAllocArray (p_mpf->qslp->nrows);
-			EGcallD(mpf_QSget_infeas_array (p_mpf, y_mpf));
+			if (mpf_QSget_infeas_array (p_mpf, y_mpf))
+			{
+				/* as in double precision: no usable certificate at this precision
+				 * is a reason to try the next one, not to give up with an error */
+				mpf_EGlpNumFreeArray (y_mpf);
+				break;
+			}
 			y_mpq = QScopy_array_mpf_mpq (y_mpf);
 			mpf_EGlpNumFreeArray (y_mpf);
 			if (QSexact_infeasible_test (p_mpq, y_mpq))
